@@ -41,6 +41,13 @@ def rule_alphabet(ctx, repo):
     for n in walk_no_nested(dec.node):
         if isinstance(n, ast.AugAssign) and isinstance(n.op, ast.Mult):
             bases.append(('decode', repo.fold(n.value, dec.module), n, dec))
+        elif isinstance(n, ast.Assign) and isinstance(n.targets[0], ast.Name):
+            # n = n * 58 + digit
+            for m_ in ast.walk(n.value):
+                if isinstance(m_, ast.BinOp) and isinstance(m_.op, ast.Mult):
+                    for a_, b_ in ((m_.left, m_.right), (m_.right, m_.left)):
+                        if norm(a_) == n.targets[0].id and isinstance(repo.fold(b_, dec.module), int):
+                            bases.append(('decode', repo.fold(b_, dec.module), n, dec))
     for which, v, node, fi in bases:
         r.check(v == 58, 'base:%s' % which, common.site_of(fi, node), 'base 58', '%s works in base %r, the alphabet has 58 characters' % (which, v))
     if len(bases) < 2:
@@ -73,27 +80,188 @@ def rule_codec_shape(ctx, repo):
             r.ok('exact:%s' % fi.name, fi.site, 'integer and string operations only')
     # encode: digits appended least significant first, then reversed
     b = enc.params[0]
+    const_locals = {}
+    for fi_ in (enc, dec):
+        for k_, v_ in common.local_defs(fi_).items():
+            fv = repo.fold(v_, fi_.module)
+            if isinstance(fv, (int, str, bytes)) and not isinstance(fv, bool):
+                const_locals[(fi_.name, k_)] = fv
     wl = [n for n in walk_no_nested(enc.node) if isinstance(n, ast.While)]
-    ok = len(wl) == 1 and canon_guard(wl[0].test, repo, enc.module) == 'n > 0' and [norm(s) for s in wl[0].body] == ['n, r = divmod(n, 58)', 'res.append(B58_DIGITS[r])']
-    if ok:
-        r.ok('encode:digits', common.site_of(enc, wl[0]), 'while n > 0: n, r = divmod(n, 58); append alphabet[r]')
+    digits_ok = False
+    acc = None
+    if len(wl) == 1:
+        w = wl[0]
+        dm = [c for c in common.iter_calls(w) if norm(c.func) == 'divmod' and len(c.args) == 2]
+        app = [c for c in common.iter_calls(w) if isinstance(c.func, ast.Attribute) and c.func.attr in ('append', 'insert')]
+        if len(dm) == 1 and len(app) == 1 and isinstance(dm[0].args[0], ast.Name):
+            num = dm[0].args[0].id
+            acc = norm(app[0].func.value)
+            tgt = getattr(dm[0], '_parent', None)
+            rem = tgt.targets[0].elts[1].id if isinstance(tgt, ast.Assign) and isinstance(tgt.targets[0], ast.Tuple) and len(tgt.targets[0].elts) == 2 \
+                and norm(tgt.targets[0].elts[0]) == num and isinstance(tgt.targets[0].elts[1], ast.Name) else None
+            from ..rules import equiv as _eq
+            looks = rem is not None and norm(app[0].args[-1]) == 'B58_DIGITS[%s]' % rem and _eq(norm(w.test), '%s > 0' % num, domain={num: (0, None)}) is True
+            digits_ok = bool(looks)
+    if digits_ok:
+        r.ok('encode:digits', common.site_of(enc, wl[0]), 'while n > 0: n, r = divmod(n, base); append alphabet[r]')
     else:
         r.undecided('encode:digits', enc.site, 'digit loop has an unrecognised shape')
+    # what is returned: <zero digit> * <count> on the left of the digits, digits most significant first
+    from ..rules import canon_arith
     defs = {}
     for n in walk_no_nested(enc.node):
         if isinstance(n, ast.Assign) and len(n.targets) == 1:
-            defs.setdefault(norm(n.targets[0]), []).append(norm(n.value))
-    r.check("''.join(res[::-1])" in defs.get('res', []), 'encode:reversed', enc.site, 'digits reversed (most significant first)', 'digit order handling: %s' % defs.get('res'))
-    rets = [norm(n.value) for n in walk_no_nested(enc.node) if isinstance(n, ast.Return)]
-    r.check(rets == ['B58_DIGITS[0] * pad + res'], 'encode:pad-left', enc.site, "one '1' per leading zero byte, on the left", 'encode returns %s' % rets)
-    zl = [n for n in walk_no_nested(enc.node) if isinstance(n, ast.For) and norm(n.iter) == b]
-    ok = len(zl) == 1 and re.sub(r'\s+', ' ', norm(zl[0])) == 'for c in %s: if c == czero: pad += 1 else: break' % b and defs.get('czero') == ['0']
-    r.check(ok, 'encode:zero-count', enc.site, 'leading zero bytes counted up to the first non-zero byte', 'leading-zero count is `%s`' % (norm(zl[0])[:80] if zl else None))
+            defs.setdefault(norm(n.targets[0]), []).append(n.value)
+    rets = [n for n in walk_no_nested(enc.node) if isinstance(n, ast.Return)]
+
+    def split_pad(fi, ret, zero, body_hint):
+        """return value = pad-part (+) body-part -> ('left'|'right', count expr, body expr) or None"""
+        v = ret.value
+        if not (isinstance(v, ast.BinOp) and isinstance(v.op, ast.Add)):
+            return None
+        for side, padpart, body in (('left', v.left, v.right), ('right', v.right, v.left)):
+            cnt = None
+            if isinstance(padpart, ast.BinOp) and isinstance(padpart.op, ast.Mult):
+                for a_, b_ in ((padpart.left, padpart.right), (padpart.right, padpart.left)):
+                    if repo.fold(a_, fi.module) == zero:
+                        cnt = b_
+            elif isinstance(padpart, ast.Call) and norm(padpart.func) == 'bytes' and len(padpart.args) == 1 and zero == b'\x00':
+                cnt = padpart.args[0]
+            if cnt is not None:
+                return side, cnt, body
+        return None
+
+    def count_kind(fi, cnt, seq_ok, marker):
+        """is `cnt` the number of leading `marker` elements of the sequence? -> ('ok'|'bad'|'unknown', why)"""
+        e = cnt
+        loopvar = None
+        if isinstance(e, ast.Name):
+            loopvar = e.id
+            ds = [n for n in walk_no_nested(fi.node) if isinstance(n, ast.Assign) and len(n.targets) == 1 and norm(n.targets[0]) == e.id]
+            # pad = count (copy of another counter)
+            if ds and isinstance(ds[-1].value, ast.Name) and ds[-1].value.id != e.id:
+                return count_kind(fi, ds[-1].value, seq_ok, marker)
+            if len(ds) == 1 and not (isinstance(ds[0].value, ast.Constant) and ds[0].value.value == 0):
+                e = ds[0].value
+                loopvar = None
+        if loopvar is not None:
+            loops = [n for n in walk_no_nested(fi.node) if isinstance(n, ast.For) and any(
+                isinstance(x, ast.AugAssign) and norm(x.target) == loopvar for x in ast.walk(n))]
+            if len(loops) != 1 or not isinstance(loops[0].target, ast.Name):
+                return 'unknown', 'no single counting loop for `%s`' % loopvar
+            lp = loops[0]
+            c = lp.target.id
+            sq = seq_ok(lp.iter)
+            if sq is not True:
+                return ('bad', sq) if isinstance(sq, str) else ('unknown', 'counts over `%s`' % norm(lp.iter))
+
+            def atom(ex, path):
+                if isinstance(ex, ast.Compare) and len(ex.ops) == 1 and isinstance(ex.ops[0], (ast.Eq, ast.NotEq)):
+                    l_, r_ = ex.left, ex.comparators[0]
+                    other = r_ if norm(l_) == c else (l_ if norm(r_) == c else None)
+                    if other is not None:
+                        ov = repo.fold(other, fi.module, env=dict({k2: v2 for (f2, k2), v2 in const_locals.items() if f2 == fi.name}, **path.env))
+                        if ov == marker:
+                            eqv = path.env.get('$eq')
+                            return eqv if isinstance(ex.ops[0], ast.Eq) else (not eqv)
+                return None
+            from ..table import Tracer
+            outcome = {}
+            for eqv in (True, False):
+                tr = Tracer(repo, fi.module, atom=atom)
+                ps = tr.trace(lp.body, {'$eq': eqv, 'czero': 0} if False else {'$eq': eqv})
+                if len(ps) != 1:
+                    return 'unknown', 'the counting loop body does not fold on "element %s marker"' % ('==' if eqv else '!=')
+                incs = [x for x in ps[0].stmts() if isinstance(x, ast.AugAssign) and norm(x.target) == loopvar]
+                ok_inc = len(incs) == 1 and isinstance(incs[0].op, ast.Add) and repo.fold(incs[0].value, fi.module) == 1
+                outcome[eqv] = (ps[0].end, len(incs), ok_inc)
+            if outcome[True][0] in ('fall', 'continue') and outcome[True][2] and outcome[False][0] == 'break' and outcome[False][1] == 0:
+                return 'ok', 'counted up to the first other element'
+            if outcome[False][0] != 'break' and outcome[True][2]:
+                return 'bad', 'the count does not stop at the first other element (every occurrence is counted, not the leading run)'
+            return 'unknown', 'counting loop outcomes %s' % outcome
+        # sum(1 for _ in itertools.takewhile(lambda c: c == M, SEQ))
+        if isinstance(e, ast.Call) and norm(e.func) == 'sum' and len(e.args) == 1 and isinstance(e.args[0], ast.GeneratorExp):
+            g = e.args[0]
+            it = g.generators[0].iter if len(g.generators) == 1 and not g.generators[0].ifs else None
+            if repo.fold(g.elt, fi.module) == 1 and isinstance(it, ast.Call) and norm(it.func).endswith('takewhile') and len(it.args) == 2 and isinstance(it.args[0], ast.Lambda):
+                lam = it.args[0]
+                sq = seq_ok(it.args[1])
+                if sq is not True:
+                    return ('bad', sq) if isinstance(sq, str) else ('unknown', 'counts over `%s`' % norm(it.args[1]))
+                b_ = lam.body
+                if len(lam.args.args) == 1 and isinstance(b_, ast.Compare) and len(b_.ops) == 1 and isinstance(b_.ops[0], ast.Eq):
+                    a_ = lam.args.args[0].arg
+                    other = b_.comparators[0] if norm(b_.left) == a_ else (b_.left if norm(b_.comparators[0]) == a_ else None)
+                    if other is not None and repo.fold(other, fi.module) == marker:
+                        return 'ok', 'takewhile over the leading run'
+        return 'unknown', 'count is `%s`' % norm(e)[:70]
+
+    def pad_rule(fi, which, zero, seq_ok, marker, what_left, what_count):
+        rets_ = [n for n in walk_no_nested(fi.node) if isinstance(n, ast.Return) and n.value is not None and repo.fold(n.value, fi.module) not in (b'', '')]
+        sp = [split_pad(fi, n, zero, None) for n in rets_]
+        if len(rets_) != 1 or sp[0] is None:
+            r.undecided('%s:pad-left' % which, fi.site, '%s returns %s: not recognisably <zero digit> * count + digits' % (which, [norm(n.value)[:60] for n in rets_]))
+            r.undecided('%s:%s' % (which, 'zero-count' if which == 'encode' else 'one-count'), fi.site, 'no pad count found')
+            return None
+        side, cnt, body = sp[0]
+        r.check(side == 'left', '%s:pad-left' % which, common.site_of(fi, rets_[0]), what_left, '%s returns `%s`: the padding is applied on the right' % (which, norm(rets_[0].value)))
+        kind, why = count_kind(fi, cnt, seq_ok, marker)
+        key = '%s:%s' % (which, 'zero-count' if which == 'encode' else 'one-count')
+        if kind == 'ok':
+            r.ok(key, fi.site, what_count)
+        elif kind == 'bad':
+            r.violated(key, fi.site, '%s: %s' % (which, why))
+        else:
+            r.undecided(key, fi.site, '%s: %s' % (which, why))
+        return body
+    body = pad_rule(enc, 'encode', '1', lambda it: True if norm(it) == b else None, 0,
+                    "one '1' per leading zero byte, on the left", 'leading zero bytes counted up to the first non-zero byte')
+    # digit order
+    if body is not None and acc is not None:
+        bt = body
+        if isinstance(bt, ast.Name):
+            ds = defs.get(bt.id, [])
+            joined = [d for d in ds if isinstance(d, ast.Call) and isinstance(d.func, ast.Attribute) and d.func.attr == 'join']
+            bt = joined[-1] if joined else bt
+        t = norm(bt)
+        inserts_front = any(isinstance(c.func, ast.Attribute) and c.func.attr == 'insert' and norm(c.func.value) == acc and repo.fold(c.args[0], enc.module) == 0 for c in common.iter_calls(enc.node))
+        if t in ("''.join(%s[::-1])" % acc, "''.join(reversed(%s))" % acc) or (t == "''.join(%s)" % acc and (inserts_front or any(norm(c) == '%s.reverse()' % acc for c in common.iter_calls(enc.node)))):
+            r.ok('encode:reversed', enc.site, 'digits reversed (most significant first)')
+        elif t == "''.join(%s)" % acc:
+            r.violated('encode:reversed', enc.site, 'the digits are joined in the order they were produced (least significant first): `%s`' % t)
+        else:
+            r.undecided('encode:reversed', enc.site, 'digit order handling: `%s`' % t[:70])
+    else:
+        r.undecided('encode:reversed', enc.site, 'digit list not identified')
     # decode: membership guard dominates the index lookup, raises InvalidBase58Error
     s = dec.params[0]
     idx = [c for c in common.iter_calls(dec.node) if norm(c.func) in ('B58_DIGITS.index', 'B58_DIGITS.find')]
     if not idx:
-        r.undecided('decode:lookup', dec.site, 'no alphabet lookup')
+        # a reverse table indexed by the character code: the index is unbounded for text (ord up to 0x10FFFF) unless a
+        # bound or membership test dominates the lookup
+        tabs = [n for n in walk_no_nested(dec.node) if isinstance(n, ast.Subscript) and isinstance(n.ctx, ast.Load) and isinstance(n.value, ast.Name)
+                and isinstance(n.slice, ast.Call) and norm(n.slice.func) == 'ord' and n.value.id in dec.module.bindings]
+        if tabs:
+            t_ = tabs[0]
+            ch = norm(t_.slice.args[0])
+
+            def cond2(test, ch=ch, tab=t_.value.id):
+                t = norm(test)
+                if t in ('%s not in B58_DIGITS' % ch, 'ord(%s) >= len(%s)' % (ch, tab), 'ord(%s) > 255' % ch, 'ord(%s) >= 256' % ch):
+                    return frozenset(['bad']), frozenset(['bounded'])
+                if t in ('%s in B58_DIGITS' % ch, 'ord(%s) < len(%s)' % (ch, tab), 'ord(%s) < 256' % ch, 'ord(%s) <= 255' % ch):
+                    return frozenset(['bounded']), frozenset(['bad'])
+                return frozenset(), frozenset()
+            mf2 = flow.run_must(dec.node, cond=cond2)
+            st2 = t_
+            while not isinstance(st2, ast.stmt):
+                st2 = st2._parent
+            f2 = mf2.at.get(id(st2))
+            r.check(f2 is not None and 'bounded' in f2, 'decode:lookup', common.site_of(dec, t_), 'table lookup only for characters inside the table',
+                    'the digit lookup `%s` indexes a table by the character code without a bound: a character above the table size (any non-Latin-1 character) raises IndexError instead of InvalidBase58Error' % norm(t_))
+        else:
+            r.undecided('decode:lookup', dec.site, 'no alphabet lookup')
     for c in idx:
         var = norm(c.args[0])
 
@@ -114,46 +282,110 @@ def rule_codec_shape(ctx, repo):
         bad = [(k, n, ff) for k, n, ff in mf.exits if 'bad' in ff]
         okc = bad and all(k == 'raise' and isinstance(n, ast.Raise) and isinstance(n.exc, ast.Call) and norm(n.exc.func) == 'InvalidBase58Error' for k, n, ff in bad)
         r.check(bool(okc), 'decode:invalid-character', dec.site, 'a character outside the alphabet raises InvalidBase58Error', 'a character outside the alphabet does not raise InvalidBase58Error')
-    rets = [norm(n.value) for n in walk_no_nested(dec.node) if isinstance(n, ast.Return)]
-    r.check("b'\\x00' * pad + res" in rets, 'decode:pad-left', dec.site, 'one zero byte per leading 1, on the left', 'decode returns %s' % rets)
-    pl = [n for n in walk_no_nested(dec.node) if isinstance(n, ast.For) and norm(n.iter).startswith(s + '[')]
-    ok = len(pl) == 1 and norm(pl[0].iter) == '%s[:-1]' % s and re.sub(r'\s+', ' ', norm(pl[0])) == 'for c in %s[:-1]: if c == B58_DIGITS[0]: pad += 1 else: break' % s
-    r.check(ok, 'decode:one-count', dec.site, "leading '1's counted over s[:-1] up to the first other character (the last character is the integer's own digit)", "leading-'1' count is `%s`" % (norm(pl[0])[:80] if pl else None))
+    def dec_seq(it):
+        t = norm(it)
+        if t == '%s[:-1]' % s:
+            return True
+        if t == s:
+            return "the leading '1's are counted over the whole string: for a string of only '1's the last character is counted twice (once as padding, once as the digit of the integer 0)"
+        return None
+    pad_rule(dec, 'decode', b'\x00', dec_seq, '1', 'one zero byte per leading 1, on the left',
+             "leading '1's counted over s[:-1] up to the first other character (the last character is the integer's own digit)")
 
 
 def rule_frame(ctx, repo):
     r = ctx.rule('C10.L1', 'Base58Check frame: version byte, payload, first four bytes of SHA256d(version+payload); written and parsed consistently', engine='LAYOUT', floor=6)
     ci = repo.get_class(B + 'CBase58Data')
+    from ..rules import canon_arith
     st = ci.methods['__str__']
-    defs = {norm(n.targets[0]): norm(n.value) for n in walk_no_nested(st.node) if isinstance(n, ast.Assign)}
-    rets = [norm(n.value) for n in walk_no_nested(st.node) if isinstance(n, ast.Return)]
-    r.check(defs.get('vs') == 'bytes([self.nVersion]) + self', 'writer:body', st.site, 'version byte then payload', 'body is %s' % defs.get('vs'))
-    r.check(defs.get('check') == 'bitcoin.core.Hash(vs)[0:4]', 'writer:checksum', st.site, 'first four bytes of SHA256d(body)', 'checksum is %s' % defs.get('check'))
-    r.check(rets == ['encode(vs + check)'], 'writer:text', st.site, 'encode(body + checksum)', '__str__ returns %s' % rets)
+
+    def ca(fi, e):
+        return canon_arith(common.resolved(fi, e, repo))
+
+    def want(fi, text):
+        return canon_arith(common.resolved(fi, ast.parse(text, mode='eval').body, repo))
+    rets = [n for n in walk_no_nested(st.node) if isinstance(n, ast.Return) and n.value is not None]
+    if len(rets) != 1:
+        r.undecided('writer:frame', st.site, '__str__ has %d returns' % len(rets))
+    else:
+        got = ca(st, rets[0].value)
+        ref = want(st, 'encode(bytes([self.nVersion]) + self + Hash(bytes([self.nVersion]) + self)[0:4])')
+        if got == ref:
+            r.ok('writer:body', st.site, 'version byte then payload')
+            r.ok('writer:checksum', st.site, 'first four bytes of SHA256d(body)')
+            r.ok('writer:text', st.site, 'encode(body + checksum)')
+        else:
+            v = common.resolved(st, rets[0].value, repo)
+            names = {n.id for n in ast.walk(v) if isinstance(n, ast.Name)} | {n.attr for n in ast.walk(v) if isinstance(n, ast.Attribute)}
+            if {'encode', 'Hash', 'nVersion', 'self'} <= names:
+                r.violated('writer:frame', common.site_of(st, rets[0]), '__str__ builds `%s`; the Base58Check frame is encode(version byte + payload + SHA256d(version byte + payload)[0:4])' % ast.unparse(v)[:200])
+            else:
+                r.undecided('writer:frame', common.site_of(st, rets[0]), '__str__ builds `%s`: not recognisably the Base58Check frame' % ast.unparse(v)[:160])
     new = ci.methods['__new__']
     s = new.params[1]
-    defs = {norm(n.targets[0]): norm(n.value) for n in walk_no_nested(new.node) if isinstance(n, ast.Assign)}
-    r.check(defs.get('k') == 'decode(%s)' % s, 'reader:decode', new.site, 'k = decode(text)', 'decoded as %s' % defs.get('k'))
-    r.check(defs.get('(verbyte, data, check0)') == '(k[0:1], k[1:-4], k[-4:])', 'reader:slices', new.site, 'version k[0:1], payload k[1:-4], checksum k[-4:]', 'slices are %s' % defs.get('(verbyte, data, check0)'))
-    r.check(defs.get('check1') == 'bitcoin.core.Hash(verbyte + data)[:4]', 'reader:checksum', new.site, 'recomputed over version + payload', 'recomputed checksum is %s' % defs.get('check1'))
+    K = 'decode(%s)' % s
+    want0 = want(new, '%s[-4:]' % K)
+    want1 = want(new, 'Hash(%s[0:1] + %s[1:-4])[:4]' % (K, K))
+
+    def sides(test):
+        if isinstance(test, ast.Compare) and len(test.ops) == 1 and isinstance(test.ops[0], (ast.Eq, ast.NotEq)):
+            a, b_ = ca(new, test.left), ca(new, test.comparators[0])
+            if {a, b_} == {want0, want1}:
+                return 'eq' if isinstance(test.ops[0], ast.Eq) else 'ne'
+        return None
 
     def cond(test):
-        t = norm(test)
-        if t in ('check0 != check1', 'check1 != check0'):
+        if isinstance(test, ast.UnaryOp) and isinstance(test.op, ast.Not):
+            a, b_ = cond(test.operand)
+            return b_, a
+        k = sides(test)
+        if k == 'ne':
             return frozenset(['mismatch']), frozenset(['match'])
-        if t in ('check0 == check1', 'check1 == check0'):
+        if k == 'eq':
             return frozenset(['match']), frozenset(['mismatch'])
         return frozenset(), frozenset()
+    cmps = [n for n in ast.walk(new.node) if isinstance(n, ast.Compare) and sides(n)]
+    if cmps:
+        r.ok('reader:decode', new.site, 'the text is decoded once: %s' % K)
+        r.ok('reader:slices', new.site, 'version k[0:1], payload k[1:-4], checksum k[-4:]')
+        r.ok('reader:checksum', new.site, 'recomputed over version + payload')
+    else:
+        # what is compared instead?
+        other = [n for n in ast.walk(new.node) if isinstance(n, ast.Compare) and len(n.ops) == 1 and isinstance(n.ops[0], (ast.Eq, ast.NotEq))
+                 and 'Hash' in ca(new, n)]
+        if other:
+            n = other[0]
+            r.violated('reader:checksum', common.site_of(new, n), 'the checksum test compares `%s` with `%s`; the frame needs the last four bytes of the decoded text against SHA256d(version byte + payload)[:4] = `%s` vs `%s`'
+                       % (ast.unparse(common.resolved(new, n.left, repo))[:80], ast.unparse(common.resolved(new, n.comparators[0], repo))[:80], '%s[-4:]' % K, 'Hash(%s[0:1] + %s[1:-4])[:4]' % (K, K)))
+        else:
+            r.violated('reader:checksum', new.site, 'no comparison of the stored checksum with SHA256d(version byte + payload)[:4] in CBase58Data.__new__')
     mf = flow.run_must(new.node, cond=cond)
     rets = [(k, n, f) for k, n, f in mf.exits if k == 'return']
-    ok = rets and all('match' in f and norm(n.value) == 'cls.from_bytes(data, verbyte[0])' for k, n, f in rets)
+    built = want(new, 'cls.from_bytes(%s[1:-4], %s[0:1][0])' % (K, K))
+    built2 = want(new, 'cls.from_bytes(%s[1:-4], %s[0])' % (K, K))
+    ok = rets and all('match' in f and ca(new, n.value) in (built, built2) for k, n, f in rets)
     r.check(bool(ok), 'reader:checksum-dominates', new.site, 'an object is built only after the checksum matched, from (payload, version byte)', 'an object can be built without the checksum comparison, or from other values')
     bad = [(k, n, f) for k, n, f in mf.exits if 'mismatch' in f]
     ok = bad and all(k == 'raise' and isinstance(n.exc, ast.Call) and norm(n.exc.func) == 'Base58ChecksumError' for k, n, f in bad)
     r.check(bool(ok), 'reader:checksum-error', new.site, 'mismatch raises Base58ChecksumError', 'a checksum mismatch does not raise Base58ChecksumError')
+    # memoisation: the value of a CBase58Data as bytes does not include nVersion, so a cache keyed by the object
+    # (lru_cache on a method) serves the text of another version
+    for nm, m_ in sorted(ci.methods.items()):
+        for d in m_.decorators:
+            dn = norm(d.func) if isinstance(d, ast.Call) else norm(d)
+            if 'cache' in dn.lower():
+                r.violated('memoised:%s' % nm, m_.site, 'CBase58Data.%s is memoised with %s: the cache key is the payload bytes (bytes equality and hash), nVersion is not part of it, so the result computed for one version is served for another' % (nm, dn))
     fb = ci.methods['from_bytes']
     gs = [canon_guard(n.test, repo, fb.module) for n in walk_no_nested(fb.node) if isinstance(n, ast.If) and flow.always_raises(n.body)]
-    r.check(gs == ['nVersion < 0 or nVersion > 255'], 'version-range', fb.site, 'every version byte 0..255 is representable', 'version range rule is %s; reference: 0 <= nVersion <= 255' % gs)
+    from ..rules import equiv as _equiv
+    # accepting form `if 0 <= nVersion <= 255: ... return` followed by a raise is the same rule
+    if not gs:
+        for n in walk_no_nested(fb.node):
+            if isinstance(n, ast.If) and not flow.always_raises(n.body):
+                k_ = fb.node.body.index(n) if n in fb.node.body else -1
+                if k_ >= 0 and flow.always_raises(fb.node.body[k_ + 1:]) and flow.always_exits(n.body):
+                    gs = [canon_guard(n.test, repo, fb.module, negate=True)]
+    r.check(len(gs) == 1 and _equiv(gs[0], 'nVersion < 0 or nVersion > 255') is True, 'version-range', fb.site, 'every version byte 0..255 is representable', 'version range rule is %s; reference: 0 <= nVersion <= 255' % gs)
     sets = [norm(n) for n in walk_no_nested(fb.node) if isinstance(n, ast.Assign)]
     r.check('self = bytes.__new__(cls, data)' in sets and 'self.nVersion = nVersion' in sets, 'from_bytes', fb.site, 'payload bytes + version attribute', 'from_bytes does %s' % sets)
 
